@@ -1,3 +1,4 @@
+import copy
 import weakref
 from weakref import ReferenceType
 
@@ -301,6 +302,12 @@ class OrderedSet(object):
             iterable = []
         for item in iterable:
             self.add(item)
+
+    def __deepcopy__(self, memo):
+        # type: (Dict[int, Any]) -> OrderedSet
+        # The nodes refer to their predecessors through weak references, so a
+        # member-by-member copy would stay linked into the original.
+        return self.__class__(copy.deepcopy(item, memo) for item in self)
 
     def add(self, item):
         # type: (str) -> None
